@@ -65,7 +65,7 @@ def case_strategy(draw):
         for name in ("cb", "cb2"):
             if name in info.attrs() and src.chance(2, 3):
                 special[name] = src.pick(SPECIALS)
-        pool.append({"hist": hist, "special": special, "cls": src.pick(["inst", "inst", "M"])})
+        pool.append({"hist": hist, "special": special, "cls": src.pick(["inst", "inst", "M"]), "strip_key": src.chance(1, 6)})
     return {"world": wd, "pool": pool, "cyclic": src.pick(["self", "list", "dict", "two", "none"])}
 
 
@@ -77,6 +77,16 @@ def build_instance(world, spec, others):
         return None
     for op in spec["hist"][1:]:
         ops.execute(world, cur, op)
+    if spec.get("strip_key"):
+        # a keyed child whose key is (again) missing: legal, and repr / == of the parent must cope
+        for name, a in world.attrs(cname).items():
+            if a["type"] == ["spec", "N"] and world.declared_default("k", "N")[0] in ("none", "attr_none"):
+                child = object.__getattribute__(cur, "__dict__").get(name)
+                if child is not None:
+                    try:
+                        del child.k
+                    except ops.CLEAN:
+                        pass
     for name, v in spec["special"].items():
         if isinstance(v, list) and v[0] == "$selfmethod":
             val = getattr(cur, v[1])
